@@ -60,3 +60,9 @@ Definition pct_point (limit tbits : N) : N :=
 (* total order test on non-NaN values, used only by classifiers: t is a finite value in [0,1] *)
 Definition f64_is_nan (b : N) : bool :=
   match f64_of_bits b with S754_nan => true | _ => false end.
+
+(* (0.0..=1.0).contains(&t) decided on the bits: the non-negative values up to 1.0 have the bit patterns
+   0 .. 0x3FF0000000000000 (order-preserving); -0.0 compares equal to 0.0; NaNs and all other negative
+   values lie outside *)
+Definition f64_in_unit (b : N) : bool :=
+  (b <=? 4607182418800017408) || (b =? 9223372036854775808).
